@@ -47,6 +47,14 @@ fn ulps<F: Fl>(a: f64, b: f64) -> u64 {
 
 fn judge_relations<F: Fl>(c: &Case, l: &mut Local) {
     let mut x64 = sample(&c.spec);
+    if c.spec.family == Family::Constant {
+        // a two-decimal constant: its reciprocal and logarithm are not exact, so the sums of the
+        // transformed values cancel only up to rounding
+        let v = (1 + c.spec.seed % 999) as f64 / 100.0;
+        let v = if F::IS32 { (v as f32) as f64 } else { v };
+        x64.iter_mut().for_each(|t| *t = v);
+        l.count("constant positive sample");
+    }
     let mut x: Vec<F> = conv(&x64);
     let n = x.len();
     if let Some((pos, which)) = c.inject {
@@ -135,6 +143,12 @@ fn judge_relations<F: Fl>(c: &Case, l: &mut Local) {
         let want_hs = (h.sample_mean() * h.sample_mean() * se_rec).f();
         let (gs, hs) = (g.sample_sem().f(), h.sample_sem().f());
         l.eval();
+        // the documented transform is finite, the reported standard error is not (or vice versa)
+        for (name, got, want) in [("Geometric", gs, want_gs), ("Harmonic", hs, want_hs)] {
+            if got.is_finite() != want.is_finite() && !(got.is_nan() && want.is_nan()) {
+                l.violation(format!("sample_sem|{}|finiteness-differs-from-documented-transform|{}", F::TY, name), "sample_sem is finite where the documented transform of the arithmetic standard error is not, or the reverse".to_string(), case(), json!({"which": name, "sample_sem": jf(got), "documented_transform": jf(want)}));
+            }
+        }
         if gs.is_finite() && want_gs.is_finite() && hs.is_finite() && want_hs.is_finite() {
             let (u1, u2) = (ulps::<F>(gs, want_gs), ulps::<F>(hs, want_hs));
             l.max("sample_sem_ulps_off_transform", u1.max(u2) as f64);
@@ -211,7 +225,19 @@ fn judge_relations<F: Fl>(c: &Case, l: &mut Local) {
                 }
             }
             (Out::Ok(a), _) if a.has_nan() => l.count("reciprocal-space CI is NaN (degenerate variance, left to C11)"),
-            (Out::Ok(_), _) => l.count("harmonic: no interval although the reciprocal-space CI exists (straddling; left to C11)"),
+            (Out::Ok(a), other) => {
+                let used_pos = match kind {
+                    Kind::Two => a.lo > 0.0,
+                    Kind::Upper => a.hi > 0.0,
+                    Kind::Lower => a.lo > 0.0,
+                };
+                if used_pos {
+                    // every reciprocal-space bound that is used is strictly positive: the reciprocal exists
+                    l.violation(format!("Harmonic::ci_mean|{}|{}|no-interval-although-reciprocal-space-CI-is-positive|{}", F::TY, kind.name(), other.class()), "Harmonic::ci_mean gives no interval although the arithmetic interval of the reciprocals (flipped kind) is strictly positive".to_string(), case(), json!({"input": inp(), "harmonic": other.describe(), "reciprocal_space_CI(flipped kind)": a.json()}));
+                } else {
+                    l.count("harmonic: no interval although the reciprocal-space CI exists (straddling; left to C11)");
+                }
+            }
             (x1, x2) => {
                 if x1.class() != x2.class() {
                     l.violation(format!("Harmonic::ci_mean|{}|outcome-differs-from-reciprocal-space", F::TY), "Harmonic::ci_mean and the arithmetic CI of the reciprocals disagree on the outcome class".to_string(), case(), json!({"input": inp(), "harmonic": x2.describe(), "reciprocal_space": x1.describe()}));
@@ -354,7 +380,13 @@ fn make_case(seed: u64, i: u64, levels: &[f64]) -> Case {
     let mut r = Rng::from(&[seed, 0xc05, i]);
     let f32 = i % 2 == 1;
     let family: Family = POSITIVE_FAMILIES[((i / 2) % 5) as usize];
-    let n = sci_common::gen::pick_len(&mut r, i / 10, &[20_000]);
+    let mut n = sci_common::gen::pick_len(&mut r, i / 10, &[20_000]);
+    // one case in eight is a constant sample of a non-dyadic value (zero variance in the transformed
+    // space up to cancellation: the standard errors must come out as 0, not NaN)
+    let family = if i % 16 >= 14 { Family::Constant } else { family };
+    if family == Family::Constant {
+        n = r.range(2, 40) as usize;
+    }
     let mut confs = vec![];
     for kind in KINDS {
         confs.push((kind, *r.pick(&[0.01, 0.1, 0.25, 0.3])));
@@ -424,7 +456,7 @@ pub fn run(run: &Arc<Run>) {
             }
         }
     });
-    let mut req: Vec<String> = vec!["strictly positive extreme injected (subnormal / MIN_POSITIVE / tiny / huge)".into(), "geometric interval judged".into(), "harmonic interval judged".into(), "sample_sem judged".into(), "harmonic: reciprocal-space interval straddles 0 (proviso; left to C11)".into()];
+    let mut req: Vec<String> = vec!["strictly positive extreme injected (subnormal / MIN_POSITIVE / tiny / huge)".into(), "geometric interval judged".into(), "harmonic interval judged".into(), "sample_sem judged".into(), "constant positive sample".into(), "harmonic: reciprocal-space interval straddles 0 (proviso; left to C11)".into()];
     for s in ["Geometric", "Harmonic"] {
         for c in ["0", "-0", "negative", "-min_positive", "-inf"] {
             req.push(format!("rejection:{}:{}", s, c));
